@@ -1147,6 +1147,143 @@ theorem sor_exit_is_step (I : BPIn ℝ) (f0n : ℝ) : ∀ (fuel k : ℕ) (phi m1
       | zero => simp only [sorLoop, Option.some.injEq] at ho; exact ⟨phi, ho.symm⟩
       | succ f' => exact ih _ _ _ _ _ o ho (by omega)
 
+/-! ## the returned iterate of the ion-free e-beam problem -/
+
+theorem zipWith3_getElem {β γ δ ε : Type} (f : β → γ → δ → ε) : ∀ (a : List β) (b : List γ) (c : List δ) (i : ℕ)
+    (h : i < (zipWith3 f a b c).length), ∃ (ha : i < a.length) (hb : i < b.length) (hc : i < c.length),
+    (zipWith3 f a b c)[i] = f a[i] b[i] c[i] := by
+  intro a
+  induction a with
+  | nil => intro b c i h; cases b <;> cases c <;> simp [zipWith3] at h
+  | cons a0 as ih =>
+    intro b c i h
+    match b, c, h with
+    | [], _, h => simp [zipWith3] at h
+    | _ :: _, [], h => simp [zipWith3] at h
+    | b0 :: bs, c0 :: cs, h =>
+      cases i with
+      | zero => exact ⟨by simp, by simp, by simp, by simp [zipWith3]⟩
+      | succ j =>
+        obtain ⟨ha, hb, hc, e⟩ := ih bs cs j (by simpa [zipWith3] using h)
+        exact ⟨by simp; omega, by simp; omega, by simp; omega, by simpa [zipWith3] using e⟩
+
+theorem mem_zipWith_exists {β γ δ : Type} (f : β → γ → δ) (a : List β) (b : List γ) (v : δ) (h : v ∈ List.zipWith f a b) :
+    ∃ x ∈ a, ∃ y ∈ b, v = f x y := by
+  rw [← List.map_uncurry_zip_eq_zipWith] at h
+  obtain ⟨p, hp, rfl⟩ := List.mem_map.mp h
+  exact ⟨p.1, (List.of_mem_zip hp).1, p.2, (List.of_mem_zip hp).2, rfl⟩
+
+/-- **the potential the e-beam solver returns for an ion-free beam — the last Newton iterate itself, not only the fixed point — never
+decreases outward and is nowhere positive**, provided the last Newton correction satisfies `y ≥ −2(E + φ)` at every node. (The
+stopping test bounds `|y/φ| < rel_diff ≤ 10⁻³`, so the condition holds for every potential above `−0.9995 E`, i.e. everywhere below the
+virtual-cathode limit.) From the Newton identity `A φ' = b(φ) − j_d ⊙ y`: with `j_d = −b/(2(E+φ))` the right-hand side is
+`b (1 + y/(2(E+φ))) ≥ 0`, and the maximum principle applies to `φ'`. -/
+theorem ionfree_iterate_well (I : BPIn ℝ) (phi : List ℝ) (hv : I.variant = .ebeam) (hsp : ∀ s ∈ I.sp, s.nl = 0)
+    (hg : GridMP I.r) (hldu : I.ldu = fdNonuniform I.r) (hphi : phi.length = I.r.length)
+    (hc : I.cden.length = I.r.length) (hcz : I.cden.getLast? = some 0) (hcd : ∀ c ∈ I.cden, c ≤ 0)
+    (hp : PivotsOk 0 (newtonRows I.ldu (step I phi).jd (targetFun none I.ldu phi (step I phi).b)))
+    (hpos : ∀ p ∈ phi, 0 < I.e_kin + p)
+    (hy : ∀ i (h1 : i < phi.length) (h2 : i < (step I phi).y.length), -(2 * (I.e_kin + phi[i])) ≤ ((step I phi).y)[i])
+    (hw : (step I phi).phi.getLast? = some 0) :
+    List.Pairwise (· ≤ ·) (step I phi).phi ∧ ∀ v ∈ (step I phi).phi, v ≤ 0 := by
+  have hn : 0 < phi.length := by have := hg.two_le; omega
+  have hlen := step_wall_rhs I phi hn (by omega) (fun h => absurd hv h) (fun _ => ⟨by omega, hcz⟩)
+  obtain ⟨hbl, _, hjl, _⟩ := hlen
+  have hldul : I.ldu.length = phi.length := by rw [hldu, fdNonuniform_length' I.r hg]; omega
+  have hid := self_consistent_partial I phi hldul (by omega) (by omega) hp
+  have hpl := step_phi_length I phi hn (by omega) hldul (fun h => absurd hv h) (fun _ => ⟨by omega, hcz⟩)
+  -- the Newton correction has one entry per node
+  have hyl : (step I phi).y.length = phi.length := by
+    have e := step_is_newton I phi
+    have e2 : (step I phi).y = (newton I.ldu phi (step I phi).b (step I phi).jd).2 := by rw [← e]
+    rw [e2]
+    simp only [newton]
+    have hfl : (targetFun none I.ldu phi (step I phi).b).length = I.ldu.length := by
+      rw [targetFun_eq I.ldu phi (step I phi).b none hldul (by omega)]; simp [mulL_length 0 I.ldu phi hldul]; omega
+    obtain ⟨_, hl⟩ := newtonRows_b I.ldu (step I phi).jd (targetFun none I.ldu phi (step I phi).b) (by omega) (by omega)
+    have hl' : (newtonRows I.ldu (step I phi).jd (targetFun none I.ldu phi (step I phi).b)).length = I.ldu.length := hl
+    rw [solve_length, hl']; omega
+  -- entries of b and jd in the ion-free case
+  have key : ∀ i (h1 : i < phi.length) (hb : i < (step I phi).b.length) (hj : i < (step I phi).jd.length) (hcc : i < I.cden.length),
+      ((step I phi).b)[i] = -I.cden[i] / Real.sqrt (2 * Const.Q_E * (I.e_kin + phi[i]) / Const.M_E) / Const.EPS_0 ∧
+      ((step I phi).jd)[i] = -(Const.Q_E / Const.M_E * (-I.cden[i] / Real.sqrt (2 * Const.Q_E * (I.e_kin + phi[i]) / Const.M_E) / Const.EPS_0)
+          / (2 * Const.Q_E * (I.e_kin + phi[i]) / Const.M_E)) := by
+    obtain ⟨variant, r, ldu, b0, cden, e_kin, sp⟩ := I
+    simp only at hv hsp hc hcd ⊢
+    subst hv
+    intro i h1 hb hj hcc
+    simp only [step] at hb hj ⊢
+    set shape : List (List ℝ) := sp.map fun s => phi.map fun p => Transc.exp (-s.q * (p - minL phi) / s.kT) with hshape
+    set i_sr : List ℝ := shape.map fun sh => trapz (List.zipWith (· * ·) r sh) r with hisr
+    set nax : List ℝ := zipWith3 (fun (s : Species ℝ) (sh : List ℝ) (isr : ℝ) => s.nl / lit 2 / Const.PI / isr * sh.headD (lit 0)) sp shape i_sr with hnax
+    have hnax0 : ∀ v ∈ nax, v = 0 := by
+      intro v hv'
+      obtain ⟨s, hs, _, _, _, _, rfl⟩ := mem_zipWith3 _ _ _ _ v hv'
+      simp [hsp s hs]
+    set bxa := zipWith3 (fun (s : Species ℝ) (sh : List ℝ) nx =>
+        zeroLast (sh.map fun v => -nx * s.q * v * Const.Q_E / Const.EPS_0)) sp shape nax with hbxa
+    have hbxa0 : ∀ row ∈ bxa, ∀ v ∈ row, v = 0 := by
+      intro row hrow
+      obtain ⟨s, _, sh, _, nx, hnx, rfl⟩ := mem_zipWith3 _ _ _ _ row hrow
+      apply zeroLast_zero
+      intro v hv'
+      obtain ⟨w, _, rfl⟩ := List.mem_map.mp hv'
+      simp [hnax0 nx hnx]
+    have hion : ∀ v ∈ colSum phi.length bxa, v = 0 := colSum_zero _ _ hbxa0
+    set jrows := zipWith3 (fun (s : Species ℝ) (bx : List ℝ) (p : List ℝ × ℝ) =>
+        List.zipWith (fun v c => v * s.q / s.kT * (p.2 - c) / p.2) bx (cTerm r p.1)) sp bxa (List.zip shape i_sr) with hjrows
+    have hjion : ∀ v ∈ colSum phi.length jrows, v = 0 := by
+      apply colSum_zero
+      intro row hrow
+      obtain ⟨s, _, bx, hbx, p, _, rfl⟩ := mem_zipWith3 _ _ _ _ row hrow
+      intro v hv'
+      obtain ⟨a, ha, c, _, rfl⟩ := mem_zipWith_exists _ _ _ v hv'
+      rw [hbxa0 bx hbx a ha]; simp
+    constructor
+    · rw [List.getElem_zipWith]
+      have : (colSum phi.length bxa)[i]'(by simp only [List.length_zipWith] at hb; omega) = 0 := hion _ (List.getElem_mem _)
+      rw [this, List.getElem_zipWith]
+      simp
+    · obtain ⟨h1', h2', h3', e⟩ := zipWith3_getElem _ _ _ _ i hj
+      rw [e]
+      have : (colSum phi.length jrows)[i]'h1' = 0 := hjion _ (List.getElem_mem _)
+      rw [this, List.getElem_zipWith]
+      simp
+  -- the right-hand side of the Newton identity is non-negative
+  have hQM : (0 : ℝ) < 2 * (Const.Q_E : ℝ) / (Const.M_E : ℝ) := by
+    have := Const.Q_E_pos; have := Const.M_E_pos; positivity
+  have hnn : ∀ v ∈ List.zipWith (· - ·) (step I phi).b (List.zipWith (· * ·) (step I phi).jd (step I phi).y), 0 ≤ v := by
+    intro v hv'
+    obtain ⟨i, hi, rfl⟩ := List.mem_iff_getElem.mp hv'
+    simp only [List.length_zipWith] at hi
+    rw [List.getElem_zipWith, List.getElem_zipWith]
+    obtain ⟨eb, ej⟩ := key i (by omega) (by omega) (by omega) (by omega)
+    rw [eb, ej]
+    have hci := hcd _ (List.getElem_mem (by omega : i < I.cden.length))
+    have hEi := hpos _ (List.getElem_mem (by omega : i < phi.length))
+    have hyi := hy i (by omega) (by omega)
+    set E := I.e_kin + phi[i] with hE
+    set β := -I.cden[i] / Real.sqrt (2 * Const.Q_E * E / Const.M_E) / Const.EPS_0 with hβ
+    have hβ0 : 0 ≤ β := by
+      apply div_nonneg _ Const.EPS_0_pos.le
+      exact div_nonneg (by linarith) (Real.sqrt_nonneg _)
+    have e1 : (Const.Q_E : ℝ) / Const.M_E * β / (2 * Const.Q_E * E / Const.M_E) = β / (2 * E) := by
+      have := Const.Q_E_pos; have := Const.M_E_pos
+      field_simp
+    rw [e1]
+    have : β - -(β / (2 * E)) * ((step I phi).y)[i] = β * (1 + ((step I phi).y)[i] / (2 * E)) := by
+      field_simp; ring
+    rw [this]
+    apply mul_nonneg hβ0
+    have : -1 ≤ ((step I phi).y)[i] / (2 * E) := by
+      rw [le_div_iff₀ (by linarith)]; linarith
+    linarith
+  have hbtl : (List.zipWith (· - ·) (step I phi).b (List.zipWith (· * ·) (step I phi).jd (step I phi).y)).length = I.r.length := by
+    simp only [List.length_zipWith]; omega
+  rw [hldu] at hid
+  have hmono := fd_monotone I.r _ (step I phi).phi hg hbtl (by omega) hid hnn
+  exact ⟨hmono, le_last_of_pairwise _ hmono 0 hw⟩
+
 /-! ## heat capacity in a wide harmonic well -/
 
 section Harmonic
